@@ -9,7 +9,20 @@ def U(name, src, flavour='asan', quick=None, thorough=None, **kw):
 
 TRUSTED = ['g++ 12 / clang 14 and their ASan/UBSan runtimes', 'the choice-sequence engine in harness/engine.h (generation, shrinking, replay)']
 
+def _c04(part, name, cases_q, cases_t):
+    return U('c04_' + name, 'c04_numbers.cpp', flavour='asan', cflags=['-DC04_PART=%d' % part], libs=['-lpugixml'],
+             quick=dict(cases=cases_q, shards=3, min_eval=1000), thorough=dict(cases=cases_t, shards=3, min_eval=10000))
+
 PROPERTIES = {
+ 'C04': dict(
+    level='exploration', exhaustive_claim=True,
+    rule='exhaustive 8/16-bit sources x 11 targets for direct conversion; generated boundary (every type limit +-2, 2^k+-2, float neighbours of limits, subnormals, NaN/Inf) and random values of every source type carried through every archive position (root, array element, object member, XML attribute, CSV cell, map key; MsgPack additionally in every legal format chosen by an independent encoder) into every target type under the four policy combinations, memory and streams; oracle = exact numeric model',
+    assumptions=TRUSTED + ['numeric_model.h (exact __int128 / long double arithmetic), self-tested at start', 'a value of another kind (bool/integer/float) than the target may be reported by the mismatched-types policy in typed archives; text archives erase kinds, so an unrepresentable text value may be reported by either policy',
+                 'the numeric value carried by a text archive for a float source is the decimal the library printed', 'NaN/Inf: same class and sign, or reported'],
+    units=[U('c04_direct', 'c04_numbers.cpp', flavour='asan', cflags=['-DC04_PART=1'], needs_lib=False,
+             quick=dict(cases=40000, shards=4, min_eval=100000), thorough=dict(cases=1500000, shards=8, min_eval=1000000)),
+           _c04(2, 'msgpack', 24000, 800000), _c04(3, 'json', 12000, 400000), _c04(4, 'xml', 12000, 400000), _c04(5, 'csv', 8000, 250000)]),
+
  'C15': dict(
     level='exploration', exhaustive_claim=False,
     rule='grammar-based generation of date-time and duration texts from fields (every field at/below/above range, magnitudes to and beyond 2^64, sign spellings, fractions incl. exact ties), mutated/garbage strings, exhaustive fraction values up to 6 digits; 14 time_point / 14 duration targets, time_t, tm; oracle = denoted value computed in __int128 from the generating fields',
